@@ -198,23 +198,40 @@ def groupnormalization_20_21(node: ir.Node, op):
     if x is None or scale is None or bias is None:
         raise VersionConverterError(f"Missing input for {node}")
 
-    x_shape = x.shape
-    if x_shape is None:
-        raise VersionConverterError(f"Missing required shape for {x}")
-    num_channels = x_shape[1]
-    if not isinstance(num_channels, int):
-        return None
-
-    scale_shape = scale.shape
-    bias_shape = bias.shape
-    if scale_shape is None or bias_shape is None:
-        return None
-    if not isinstance(scale_shape[0], int) or not isinstance(bias_shape[0], int):
-        return None
-
     num_groups = _get_int_attribute(node, "num_groups", None)
     if num_groups is None:
         raise VersionConverterError("Missing required attribute: num_groups")
+    attrs = {"num_groups": num_groups}
+    epsilon = node.attributes.get("epsilon")
+    if isinstance(epsilon, ir.Attr) and isinstance(epsilon.value, float):
+        attrs["epsilon"] = epsilon.value
+
+    num_channels = x.shape[1] if x.shape is not None else None
+    scale_shape = scale.shape
+    bias_shape = bias.shape
+    if (
+        not isinstance(num_channels, int)
+        or scale_shape is None
+        or bias_shape is None
+        or not isinstance(scale_shape[0], int)
+        or not isinstance(bias_shape[0], int)
+    ):
+        # The layout of scale/bias (per group in opset <= 20, per channel in opset 21)
+        # cannot be decided statically: expand by the run-time ratio C / len(scale),
+        # which is C / num_groups for per-group values and 1 for per-channel values.
+        reshape_1_sizes = op.Constant(value_ints=[-1, 1])
+        reshape_2_sizes = op.Constant(value_ints=[-1])
+        one = op.Constant(value_ints=[1])
+        channels = op.Shape(x, start=1, end=2)
+
+        def _per_channel(value):
+            ratio = op.Div(channels, op.Shape(value))
+            column = op.Reshape(value, reshape_1_sizes)
+            expanded = op.Expand(column, op.Concat(one, ratio, axis=0))
+            return op.Reshape(expanded, reshape_2_sizes)
+
+        return op.GroupNormalization(x, _per_channel(scale), _per_channel(bias), **attrs)
+
     if (
         num_groups != num_channels
         and num_groups == scale_shape[0]
@@ -235,10 +252,6 @@ def groupnormalization_20_21(node: ir.Node, op):
         bias_expand = op.Expand(bias_reshape_1, expand_sizes)
         bias_reshape_2 = op.Reshape(bias_expand, reshape_2_sizes)
 
-        attrs = {"num_groups": num_groups}
-        epsilon = node.attributes.get("epsilon")
-        if isinstance(epsilon, ir.Attr) and isinstance(epsilon.value, float):
-            attrs["epsilon"] = epsilon.value
         return op.GroupNormalization(x, scale_reshape_2, bias_reshape_2, **attrs)
     return None
 
